@@ -49,6 +49,7 @@ ESSENTIAL = [
     "reread-after-change:volume", "reread-after-change:ml_class",
     "reread-after-change:plugin", "reread-after-removal", "child-read",
     "reread-after-change:crosstalk-of-unrecorded-channel",
+    "emodulus-unavailable:no-temperature-source",
     "fmt:hdf5", "fmt:dict", "scenario:A", "scenario:B", "scenario:C",
     "scenario:B-other+T", "emodulus-finite-values", "op:temp", "op:ctemp",
     "op:plug", "op:unplug", "op:features", "direct:emodulus", "direct:ctc",
@@ -93,7 +94,7 @@ EMOD_KEYS = ["lut", "med", "T", "visc", "vm", "px", "flow", "width", "region"]
 SCALAR_IN = ["area_cvx", "area_msd", "size_x", "size_y", "circ", "frame", "pos_x",
              "pos_y", "bg_off", "fl1_max", "fl2_max", "fl3_max", "temp"]
 IMAGE_IN = ["mask", "image", "image_bg"]
-DROPPABLE = ["temp", "temp", "bg_off",
+DROPPABLE = ["bg_off",
              "image_bg", "area_msd", "size_y", "frame", "pos_x", "mask", "image",
              "area_cvx", "circ"]
 TEMPS = ["tmp_a", "ml_score_aaa", "ml_score_bbb", "ml_score_ccc"]
@@ -140,9 +141,9 @@ for _v in KEY_TO_FEATS.values():
 
 # ------------------------------------------------------------------- generator
 
-KEY_CATS = ([["med", "T", "visc", "vm", "lut"]] * 4
-            + [["px", "px", "px", "flow", "width", "region"]] * 3
-            + [["fr"]] * 2 + [["uk", "um"]] * 2 + [CT] * 3)
+KEY_CATS = ([["med", "T", "visc", "vm", "lut"]] * 3
+            + [["px", "px", "px", "flow", "width", "region"]] * 4
+            + [["fr"]] * 3 + [["uk", "um"]] * 2 + [CT] * 4)
 
 
 def _vidx(draw, key):
@@ -197,9 +198,18 @@ def st_spec(draw):
     present = {"px", "fr", "flow", "width", "lut", "uk", "um"}
     present |= {"A": {"med", "vm"}, "B": {"visc"}, "C": {"med", "T", "vm"},
                 "Bother": {"med", "visc"}, "BotherT": {"med", "visc", "T", "vm"}}[scen]
-    present |= set(draw(st.sampled_from(
-        [CT, CT, ["ct12", "ct21"], ["ct13", "ct31"], ["ct23", "ct32"],
-         ["ct12", "ct21", "ct13", "ct31"], []])))
+    # two-channel measurements are common: one fluorescence channel not recorded
+    fl_absent = draw(st.sampled_from([[], [], [], ["fl3_max"], ["fl3_max"], ["fl2_max"],
+                                      ["fl1_max"], ["fl2_max", "fl3_max"]]))
+    if len(fl_absent) == 1:
+        # ... while the analysis pipeline defines the full matrix
+        ct0 = draw(st.sampled_from([CT, CT, CT, CT, ["ct12", "ct21", "ct13", "ct31"],
+                                    ["ct12", "ct21"], []]))
+    else:
+        ct0 = draw(st.sampled_from(
+            [CT, CT, ["ct12", "ct21"], ["ct13", "ct31"], ["ct23", "ct32"],
+             ["ct12", "ct21", "ct13", "ct31"], []]))
+    present |= set(ct0)
     if draw(st.booleans()):
         present.add("region")
     present -= set(draw(st.lists(st.sampled_from(sorted(KEYS)), max_size=1)))
@@ -213,11 +223,10 @@ def st_spec(draw):
         else:
             cfg[k] = _vidx(draw, k)
     absent = draw(st.lists(st.sampled_from(DROPPABLE), max_size=2, unique=True))
-    # two-channel measurements are common: one fluorescence channel not recorded
-    absent += draw(st.sampled_from([[], [], [], ["fl3_max"], ["fl3_max"], ["fl2_max"],
-                                    ["fl1_max"], ["fl2_max", "fl3_max"]]))
-    if scen == "A" and "temp" in absent and draw(st.booleans()):
-        absent.remove("temp")
+    absent += fl_absent
+    # datasets without the per-event temperature (scenario A impossible)
+    if draw(st.sampled_from([False, False, True])):
+        absent.append("temp")
     return {
         "fmt": draw(st.sampled_from(["dict", "dict", "hdf5"])),
         "n": draw(st.sampled_from([1, 2, 3, 5, 8, 13, 25])),
@@ -802,6 +811,12 @@ class Sim:
         if f == "emodulus":
             sc = self.emod_scenario()
             rec.cls("scenario:" + ("C" if sc == "C+temp" else sc))
+            c = self.cfg
+            if sc == "none" and c.get("med") in KNOWN_MEDIA and "visc" not in c \
+                    and all(k in c for k in ("lut", "px", "flow", "width")) \
+                    and c.get("region", "channel") == "channel":
+                # everything but a temperature source (no `temp`, no configured value)
+                rec.cls("emodulus-unavailable:no-temperature-source")
         if hist.startswith("after"):
             self.nontrivial = True
             rec.cls("reread-after-change:" + grp)
